@@ -78,6 +78,9 @@ def rgrids():
             "single1": OneDGrid(np.array([0.7]), np.array([0.4]), (0, np.inf)),
             "pair2": OneDGrid(np.array([0.25, 1.3]), np.array([0.3, 0.9]), (0, np.inf)),
             "unsorted5": OneDGrid(np.array([0.2, 0.6, 1.1, 0.05, 2.4]), np.array([0.2, 0.4, 0.5, 0.1, 0.8]), (0, np.inf)),
+            # nodes and weights both stored in an integer dtype (an index grid, what UniformInteger-like grids hold): added
+            # after seeded change C05-L (output arrays allocated "like" the radial weights truncated every weight)
+            "ints4": OneDGrid(np.arange(1, 5), np.array([1, 2, 1, 3]), (0, np.inf)),
         }
 
 
